@@ -126,8 +126,12 @@ def _rs(seed, label):
     return common.np_rng('C13', seed, 'data/' + label)
 
 
-def _series(rs, nch, n, rate=1.0, one_d=False):
+def _series(rs, nch, n, rate=1.0, one_d=False, cplx=False):
     ts, _ = nt()
+    if cplx:
+        re = _series(rs, nch, n, rate, one_d).data
+        im = _series(rs, nch, n, rate, one_d).data
+        return ts.TimeSeries(re + 1j * im, sampling_rate=rate)
     t = np.arange(n)
     base = np.sin(2 * np.pi * 0.11 * t + rs.uniform(0, 6)) + 0.5 * np.sin(2 * np.pi * 0.23 * t)
     if one_d:
@@ -149,18 +153,18 @@ def settings(seed, tier):
     S = []
     N = 128
 
-    def inp(label, variant, nch=3, one_d=False, n=None):
+    def inp(label, variant, nch=3, one_d=False, n=None, cplx=False):
         rs = _rs(seed, label + '/v%d' % variant)
         n = n or N
         if variant == 0:
-            return _series(rs, nch, n, 1.0, one_d)
+            return _series(rs, nch, n, 1.0, one_d, cplx)
         if variant == 1:      # same shape, other data
-            return _series(rs, nch, n, 1.0, one_d)
+            return _series(rs, nch, n, 1.0, one_d, cplx)
         if variant == 2:      # other length
-            return _series(rs, nch, n + 64, 1.0, one_d)
+            return _series(rs, nch, n + 64, 1.0, one_d, cplx)
         if variant == 3:      # other sampling rate
-            return _series(rs, nch, n, 2.5, one_d)
-        return _series(rs, nch + 1, n, 1.0, one_d)      # other channel count
+            return _series(rs, nch, n, 2.5, one_d, cplx)
+        return _series(rs, nch + 1, n, 1.0, one_d, cplx)      # other channel count
 
     def add(cls, label, f):
         S.append((cls, label, f))
@@ -175,6 +179,16 @@ def settings(seed, tier):
     simple('CoherenceAnalyzer', 'welch32-unwrap', lambda x: na.CoherenceAnalyzer(x, method=dict(this_method='welch', NFFT=32, n_overlap=16), unwrap_phases=True))
     simple('CoherenceAnalyzer', 'default', lambda x: na.CoherenceAnalyzer(x))
     simple('CoherenceAnalyzer', 'mt-unwrap', lambda x: na.CoherenceAnalyzer(x, method=dict(this_method='multi_taper_csd'), unwrap_phases=True), n=64)
+    # user-supplied method dictionaries with non-default entries ('Fs' different from the input's rate)
+    simple('CoherenceAnalyzer', 'user-fs', lambda x: na.CoherenceAnalyzer(x, method=dict(this_method='welch', NFFT=32, n_overlap=8, Fs=3.0, detrend=na.coherence.tsa.mlab.detrend_mean)))
+    simple('SparseCoherenceAnalyzer', 'user-fs', lambda x: na.SparseCoherenceAnalyzer(x, ij=[(0, 2), (1, 2)], method=dict(this_method='welch', NFFT=16, Fs=3.0, n_overlap=4), lb=0.1, ub=1.2))
+    simple('SpectralAnalyzer', 'user-fs', lambda x: na.SpectralAnalyzer(x, method=dict(this_method='welch', NFFT=32, Fs=3.0, n_overlap=8), BW=0.2), n=64)
+    # complex-valued inputs (in-place transforms bite only there)
+    simple('SpectralAnalyzer', 'complex', lambda x: na.SpectralAnalyzer(x, method=dict(this_method='welch', NFFT=32)), n=64, cplx=True)
+    simple('SpectralAnalyzer', 'complex-1d', lambda x: na.SpectralAnalyzer(x), n=64, cplx=True, one_d=True)
+    simple('HilbertAnalyzer', '1d', lambda x: na.HilbertAnalyzer(x), one_d=True)
+    simple('CorrelationAnalyzer', 'complex', lambda x: na.CorrelationAnalyzer(x), n=32, cplx=True)
+    simple('NormalizationAnalyzer', 'complex', lambda x: na.NormalizationAnalyzer(x), n=32, cplx=True)
     simple('MTCoherenceAnalyzer', 'adaptive', lambda x: na.MTCoherenceAnalyzer(x), n=64)
     simple('MTCoherenceAnalyzer', 'fixed-bw', lambda x: na.MTCoherenceAnalyzer(x, bandwidth=0.125, adaptive=False), n=64)
     simple('SparseCoherenceAnalyzer', 'ij', lambda x: na.SparseCoherenceAnalyzer(x, ij=[(0, 1), (1, 2)], method=dict(this_method='welch', NFFT=32, n_overlap=16)))
@@ -193,13 +207,14 @@ def settings(seed, tier):
     simple('GrangerAnalyzer', 'order2', lambda x: na.GrangerAnalyzer(x, order=2, n_freqs=32))
     simple('GrangerAnalyzer', 'bic', lambda x: na.GrangerAnalyzer(x, ij=[(0, 1), (1, 2)], n_freqs=16))
 
-    def filt(label, **kw):
+    def filt(label, cplx=False, **kw):
         def b(variant=0, input=None):
-            x = inp('Filter' + label, variant) if input is None else input
+            x = inp('Filter' + label, variant, cplx=cplx) if input is None else input
             return na.FilterAnalyzer(x, filt_order=16, **kw), [x]
         add('FilterAnalyzer', label, b)
     filt('highpass-ubNone', lb=0.05)
     filt('band', lb=0.05, ub=0.3)
+    filt('complex-band', cplx=True, lb=0.05, ub=0.3)
 
     def seedcoh(label, two_d, **kw):
         def b(variant=0, input=None):
@@ -211,7 +226,7 @@ def settings(seed, tier):
                 kw2['method'] = dict(kw2['method'])
             return na.SeedCoherenceAnalyzer(sd, tgt, **kw2), [sd, tgt]
         add('SeedCoherenceAnalyzer', label, b)
-    seedcoh('fs-given', True, method=dict(this_method='welch', NFFT=32, Fs=0.5), lb=0.02, ub=0.2)
+    seedcoh('fs-given', True, method=dict(this_method='welch', NFFT=32, Fs=0.8, n_overlap=8), lb=0.02, ub=0.3)
     seedcoh('fs-missing-band', True, method=dict(this_method='welch', NFFT=32), lb=0.02, ub=0.2)
     seedcoh('default-1d', False)
 
